@@ -281,9 +281,69 @@ fn golden(rep: &Report) {
     rep.extra("golden_files", json!(n));
 }
 
+/// Every length of a chunk at production chunk size: for L = 0..=65536 a plaintext of L bytes delivered by one read, alone
+/// and (every 17th L, all L in the thorough tier) after a full first chunk, through the real chunk loops with cs = 65536.
+/// `conformance`: the encryptor's bytes equal REF's and the real decryptor opens REF's bytes; otherwise the oracle is the
+/// round trip through the two real loops only.
+pub fn chunk_length_sweep(rep: &Report, tag: &str, conformance: bool) {
+    use rayon::prelude::*;
+    use std::sync::atomic::Ordering;
+    const CSZ: usize = 65536;
+    let key = derive32(rep.seed, "length-sweep-key");
+    let aad: Vec<u8> = if conformance { r::PASS_MAGIC.to_vec() } else { vec![] };
+    let pool = plaintext(rep.seed ^ 0x51ee9, 2 * CSZ + 7);
+    let every = rep.tier.pick(17usize, 1);
+    let enc = Subject::TinyEnc { key: hx(&key), aad: hx(&aad), cs: CSZ as u32 };
+    let dec = Subject::TinyDec { key: hx(&key), aad: hx(&aad), cs: CSZ as u32 };
+    let bad = std::sync::atomic::AtomicU64::new(0);
+    (0..=CSZ).into_par_iter().for_each(|l| {
+        if bad.load(Ordering::Relaxed) > 3 {
+            return;
+        }
+        let mut shapes: Vec<Vec<usize>> = vec![if l == 0 { vec![] } else { vec![l] }];
+        if l > 0 && l % every == 0 {
+            shapes.push(vec![CSZ, l]);
+        }
+        for sizes in shapes {
+            rep.eval(1);
+            let total: usize = sizes.iter().sum();
+            let off = l % 7;
+            let p = &pool[off..off + total];
+            let mut src = SchedReader::new(p, &sizes);
+            let mut out = Vec::with_capacity(total + 100);
+            let res = run_rw(&enc, &mut src, &mut out);
+            let case = json!({"kind":"length-sweep","l":l,"reads":sizes});
+            let mut fail = |what: String| {
+                bad.fetch_add(1, Ordering::Relaxed);
+                rep.violation(&format!("{}/chunk-length-sweep", tag), case.clone(), what);
+            };
+            if !res.is_ok() {
+                fail(format!("the encrypt loop fails for reads {:?}: {}", sizes, res.brief()));
+                continue;
+            }
+            let chunking: Vec<usize> = if total == 0 { vec![0] } else { sizes.clone() };
+            if conformance {
+                let want = r::write_chunks(&key, &aad, p, &chunking);
+                if out != want {
+                    fail(format!("for reads {:?} the encryptor's {} bytes differ from the format's {} bytes", sizes, out.len(), want.len()));
+                    continue;
+                }
+            }
+            let (dres, got) = run_plain(&dec, &out);
+            if !dres.is_ok() || got != p {
+                fail(format!("a plaintext delivered as reads {:?} does not come back: decrypt gives {} with {} bytes", sizes, dres.brief(), got.len()));
+            }
+        }
+    });
+    rep.nontrivial(format!("{}-chunk-length-sweep", tag).as_bytes());
+    rep.add_distinct(CSZ as u64);
+    rep.extra("chunk_length_sweep", json!({"lengths":"0..=65536","after_a_full_chunk_every":every}));
+}
+
 pub fn run(rep: &'static Report) {
     let seed = rep.seed;
     rep.set_rule("E-GRID vs REF: every point of the stated products (lengths x read partitions x key sets; every composition of L<=8 into chunk sizes; counter sweep; golden files) is executed once on the real code and compared byte for byte with the executable specification; distinct non-trivial = distinct (mode, direction, keys, length, partition/chunking) points with at least one chunk record compared");
+    rep.rule_add("Every final-chunk length 0..=65536 at production chunk size (alone; after a full chunk for every 17th / every length): encryptor bytes == REF bytes, decryptor opens them.");
     rep.rule_add("Password channels: 8 passwords differing in blanks at their ends x {environment, controlling terminal, stdin terminal} x {password encrypt judged by REF, REF file opened by password decrypt}.");
     rep.rule_add("CLI password-file conformance in both directions x {fresh, pre-existing longer output}.");
     rep.assume("REF (OpenSSL-based executable specification written from the RFCs, the Noise spec and docs/file-format.txt) is the meaning of 'the documented format'; it is self-tested against RFC vectors and the published cacophony vector at start");
@@ -551,6 +611,7 @@ pub fn run(rep: &'static Report) {
     // (iv) golden files
     golden(rep);
     crate::chan::password_files(rep, "C06");
+    chunk_length_sweep(rep, "C06", true);
     rep.set_exhaustive(true);
 }
 
@@ -709,6 +770,10 @@ fn cli_conformance(rep: &Report) {
 }
 
 pub fn replay(rep: &'static Report, case: &Value) {
+    if case["kind"] == "length-sweep" {
+        chunk_length_sweep(rep, "C06", true);
+        return;
+    }
     if case["kind"] == "chan" {
         println!("  re-running the password-channel part");
         crate::chan::password_files(rep, "C06");
